@@ -48,6 +48,8 @@ class Unit:
         self.audits = []
         self.anchors_lost = []
         self.assumed = []
+        self.demote = set()
+        self.demoted_info = []
 
     def src(self, rel):
         if rel not in self.sources:
@@ -59,6 +61,12 @@ class Unit:
 
     # --------------------------------------------------------------------------------
     def generate(self):
+        self.functions = []
+        self.types = []
+        self.regions = []
+        self.assumed = []
+        self.anchors_lost = []
+        self.demoted_info = []
         lines = self._conditionals(open(self.tmpl_path, encoding='utf-8').read().split('\n'))
         out = []          # list of text chunks
         twins_out = []    # same, with vacuity twins
@@ -203,6 +211,14 @@ class Unit:
             raise ExtractError('anchor drift: signature of %s in %s changed\n  template: %s\n  source:   %s' % (path, rel, plain, rs))
         body_text = s.text[s.tok(f['body_open'])[3]:s.tok(f['body_close'])[2]]
         base_line = s.line_of(s.tok(f['body_open'])[3])
+        if path in self.demote:
+            # the body is outside the verifier's reach on this tree (unsupported construct): keep the contract as an
+            # ASSUMED one so that callers still verify; the function itself is handed to the bounded stand-in.
+            chunk = '// ---- DEMOTED (body not readable by Verus on this tree): %s from %s\n#[verifier::external_body]\n%s\n{ unimplemented!() }\n' % (path, rel, sig_text.rstrip())
+            out.append(chunk)
+            twins_out.append(chunk)
+            self.demoted_info.append(dict(file=rel, fn=path, line=s.line_of(s.tok(f['fn_ci'])[2]), body_sha256=sha256(body_text)))
+            return
         b = Body(body_text, base_line)
         if 'R7' in allowed:
             b.r7_option_combinators()
@@ -239,6 +255,17 @@ class Unit:
                 # whether the solver finds the proof).  A failure in this unit is then only reported as a
                 # violation when the witness search exhibits a concrete failing input on the real code.
                 self.anchors_lost.append('%s: %s' % (path, str(e)))
+        if any(al.startswith(path + ':') for al in self.anchors_lost):
+            # one hint lost its anchor: later hints may refer to ghost variables it introduced, so ALL hints of this
+            # function are dropped (consistently); the function is then verified from its contract alone.
+            b = Body(body_text, base_line)
+            if 'R7' in allowed:
+                b.r7_option_combinators()
+            b.r4_logging()
+            b.r2_assert()
+            b.r3_panic_closure()
+            b.r1_ref_patterns()
+            hints = 0
         new_body = b.apply()
         start = sum(len(x) for x in out)
         header = '// ---- extracted fn %s from %s:%d (body sha256 %s)\n' % (path, rel, s.line_of(s.tok(f['fn_ci'])[2]), sha256(body_text)[:16])
